@@ -102,6 +102,7 @@ type Pipeline struct {
 	Knobs         map[string]int
 	NoChunk       bool
 	PoisonActions bool
+	InitialOutput []byte // content of the events output before the daemon starts (restart)
 }
 
 func (p *Pipeline) axis() int { return p.rc.Sim.EventCount() }
@@ -185,6 +186,7 @@ func (p *Pipeline) Start() error {
 		p.sshdPipe = rc.Sim.AddPipe(sp)
 		p.auditPipe = rc.Sim.AddPipe(ap)
 		p.disk = rc.Sim.NewDisk("/sim/app-events-output.log")
+		p.disk.Initial = p.InitialOutput
 		os.Setenv("NODE_NAME", "sim-node")
 		args := []string{"audito-maldito", "-sshd-pipe-path", sp, "-auditd-pipe-path", ap, "-app-events-output", p.disk.Path}
 		rc.Sim.Spawn("daemon", func() {
